@@ -96,3 +96,34 @@
         }
     }
 
+//# section: complex-type-spec
+    // ---- ComplexProps::try_from_node: the content child read LAST (sequence or complexContent) supplies the fields, the attribute
+    // children after it are appended in order
+    pub open spec fn is_content(c: Node) -> bool { tag(c) == "sequence"@ || tag(c) == "complexContent"@ }
+    pub open spec fn last_content(n: Node, k: nat) -> int
+        decreases k
+    {
+        if k == 0 { -1 } else if is_content(elem_kids(n)[k - 1]) { k - 1 } else { last_content(n, (k - 1) as nat) }
+    }
+    pub open spec fn attrs_between<'a, 'b>(n: Node<'a, 'b>, lo: int, k: nat) -> Seq<Node<'a, 'b>>
+        decreases k
+    {
+        if k <= lo || k == 0 { Seq::empty() } else {
+            attrs_between(n, lo, (k - 1) as nat) + (if tag(elem_kids(n)[k - 1]) == "attribute"@ { seq![elem_kids(n)[k - 1]] } else { Seq::empty() })
+        }
+    }
+    pub open spec fn content_ok(d: RustDocument, c: Node, fs: Seq<Field>) -> bool {
+        &&& (tag(c) == "sequence"@ ==> fields_are(fs, members(c)))
+        &&& (tag(c) == "complexContent"@ ==> cc_ok(d, c, fs))
+    }
+    // C02/C08 at the level of one complex type: fields == (fields of the content child) ++ (one field per attribute declared after it)
+    pub open spec fn ct_ok(n: Node, fs: Seq<Field>) -> bool {
+        let k = elem_kids(n).len();
+        let j = last_content(n, k);
+        let at = attrs_between(n, j + 1, k);
+        &&& fs.len() >= at.len()
+        &&& (forall|i: int| 0 <= i < at.len() ==> is_field_of(#[trigger] fs[fs.len() - at.len() + i], at[i]))
+        &&& (j < 0 ==> fs.len() == at.len())
+        &&& (j >= 0 ==> exists|d: RustDocument| #[trigger] content_ok(d, elem_kids(n)[j], fs.take(fs.len() - at.len())))
+    }
+
